@@ -22,6 +22,8 @@ FLAGS = {"F": 1, "C": 0, "L": 2, "U": 3}
 SYMS = [(f, a, s) for f in "FCLU" for a in (0, 1) for s in (1, 2)]  # 16 symbols
 # a second alphabet on ONE APID whose sequence count may also repeat (step 0: a duplicated / retransmitted segment) or go back (step -1)
 SYMS_B = [(f, 0, s) for f in "FCLU" for s in (1, 2, 0, -1)]
+# a third alphabet: steps that are 1 modulo a power of two smaller than the 14-bit counter period (a gap of 1024, 4096, 8192 packets plus one)
+SYMS_C = [(f, 0, s) for f in "FCLU" for s in (1, 1025, 4097, 8193)]
 APIDS = (0x0A1, 0x2B2)
 
 
@@ -92,7 +94,7 @@ def tags_of(raw: bytes, k):
 
 
 def check_history(t: Tally, defn, hist, base, k, states, vary=False, skip=0, alphabet="A"):
-    syms = SYMS_B if alphabet == "B" else SYMS
+    syms = SYMS_B if alphabet == "B" else SYMS_C if alphabet == "C" else SYMS
     stream, pkts, meta = build_history(hist, base, k, vary, skip, syms)
     want = model(pkts, meta, k, states)
     got, nwarn = run_impl(defn, stream, k, skip)
@@ -145,11 +147,49 @@ def _task(task):
                     if n <= task.get("alphabet_b_upto", 4):
                         for base in task["bases"]:
                             check_history(t, defn, hist, base, 0, states, alphabet="B")
+                        check_history(t, defn, hist, task["bases"][-1], 0, states, alphabet="C")
                     t.nontrivial += any(SYMS[s][0] in "FCL" for s in hist)
     except BaseException as e:  # noqa: BLE001
         t.violation({"kind": "sweep-aborted", "exc": type(e).__name__}, {"length": n, "firsts": task["firsts"]}, observed=repr(e)[:200])
     if n == 3 and 0 in task["firsts"]:
         t.sample({"history": [list(SYMS[s]) for s in (0, 4, 8)], "meaning": "(flag, apid index, sequence step)", "bases": task["bases"], "secondary_header_bytes": task["ks"]})
+    return t
+
+
+def _task_long_groups(task):
+    """Groups longer than the period of the 14-bit sequence counter (16384): consecutive counts modulo 16384 all the way, so the group is
+    valid and is combined into one packet; the same group with one count skipped in the middle is dropped."""
+    t = Tally()
+    defn = header_only_definition()
+    for n in task["sizes"]:
+        for gap_at in (None, n // 2, n - 1):
+            pkts = []
+            cnt = task["base"]
+            for i in range(n):
+                if gap_at is not None and i == gap_at:
+                    cnt = (cnt + 1) % 16384
+                flag = 1 if i == 0 else 2 if i == n - 1 else 0
+                pkts.append(framing.mk_packet(bytes([i & 0xFF]), apid=APIDS[0], seqflags=flag, seqcount=cnt))
+                cnt = (cnt + 1) % 16384
+            extra = framing.mk_packet(b"\xEE", apid=APIDS[1], seqflags=3, seqcount=7)
+            stream = b"".join(pkts[:n // 3]) + extra + b"".join(pkts[n // 3:])
+            want = [extra] + ([pkts[0] + b"".join(q[6:] for q in pkts[1:])] if gap_at is None else [])
+            try:
+                with case_alarm(600):
+                    got, _ = run_impl(defn, stream, 0)
+            except BaseException as e:  # noqa: BLE001
+                got = ("raised", type(e).__name__, str(e)[:80])
+            t.evals += 1
+            t.traces += 1
+            t.transitions += n
+            t.nontrivial += 1
+            ok = not isinstance(got, tuple) and got == want
+            t.outcomes["long-group:" + ("ok" if ok else "bad")] += 1
+            if not ok:
+                t.violation({"kind": "reassembly", "observed": "raised" if isinstance(got, tuple) else "mismatch", "long_group": True},
+                            {"long_group": n, "gap_at": gap_at, "base": task["base"]}, expected=[len(w) for w in want],
+                            observed=list(got) if isinstance(got, tuple) else [len(g) for g in got],
+                            note="a group longer than the counter period: valid groups are combined, a group with a skipped count is dropped")
     return t
 
 
@@ -168,6 +208,8 @@ def run(ctx):
                 tasks.append({"length": n, "firsts": [f], "bases": bases, "ks": ks})
     tasks.sort(key=lambda x: -x["length"])
     tally = fan_out(_task, tasks, jobs=ctx.jobs, seed=ctx.seed)
+    tally.merge(fan_out(_task_long_groups, [{"sizes": [sz], "base": b} for sz in (1023, 1025, 4097, 16383, 16384, 16385, 16386, 32769) for b in (0, 16000)],
+                        jobs=ctx.jobs, seed=ctx.seed))
     # distinct model states: recompute cheaply over all histories of length <= 4 (the model is tiny)
     states = set()
     for n in range(1, 5):
@@ -181,7 +223,7 @@ def run(ctx):
         "exhaustive": True,
         "bound": (f"EVERY history of length <= {max_len} over 16 symbols ({{F,C,L,U}} x 2 APIDs x sequence step {{+1,+2}})"
                   + ("" if ctx.quick else " (length 5, 6 halved by APID symmetry; length 6 with base 16382 and no secondary header)")
-                  + "; histories of length <= 4 also with version/type/secondary-header-flag bits that differ from packet to packet, on a second alphabet ({F,C,L,U} on one APID x sequence step {+1,+2,0 (repeated count),-1}), and as raw records (3 or 4 foreign bytes before every packet, skip_header_bytes) with secondary headers of 0..2 bytes; base sequence counts {0, 16382} (wrap-around inside the history); secondary_header_bytes {0,1,3} on the shorter histories; "
+                  + "; histories of length <= 4 also with version/type/secondary-header-flag bits that differ from packet to packet, on a second alphabet ({F,C,L,U} on one APID x sequence step {+1,+2,0 (repeated count),-1}), a third one with steps {1, 1025, 4097, 8193}, groups of 1023 ... 32769 segments (longer than the counter period), valid and with one skipped count, and as raw records (3 or 4 foreign bytes before every packet, skip_header_bytes) with secondary headers of 0..2 bytes; base sequence counts {0, 16382} (wrap-around inside the history); secondary_header_bytes {0,1,3} on the shorter histories; "
                   "every history runs in a fresh generator but all of them on ONE definition object per worker, so group state that outlives a generator "
                   "(or is shared between generators) makes later histories disagree with the model"),
         "rule": ("one evaluation = one history replayed on a fresh generator and on the model; distinct non-trivial = distinct histories containing at "
@@ -193,6 +235,9 @@ def run(ctx):
 
 
 def replay(case):
+    if "long_group" in case:
+        t = _task_long_groups({"sizes": [case["long_group"]], "base": case["base"]})
+        return next((v for v in t.violations if v["case"]["gap_at"] == case["gap_at"]), None)
     t = Tally()
     check_history(t, header_only_definition(), tuple(case["hist_idx"]), case["base"], case["k"], None, vary=case.get("vary_header_bits", False), skip=case.get("skip_header_bytes", 0), alphabet=case.get("alphabet", "A"))
     return t.violations[0] if t.violations else None
